@@ -153,8 +153,6 @@ def is_subclass(name, base):
     base = _ALIASES.get(base, base)
     if name == base:
         return True
-    if base in ('BaseException',):
-        return True
     h = class_hierarchy()
     seen = set()
     stack = [name]
